@@ -9,7 +9,7 @@ use std::sync::Once;
 static INIT: Once = Once::new();
 fuzz_target!(|data: &[u8]| {
     INIT.call_once(avg_verif::engine::install_panic_hook);
-    if let Some(f) = avg_verif::fuzzdec::histogram(data, &avg_verif::fuzzdec::KNOWN_SIGS) {
+    if let Some(f) = avg_verif::fuzzdec::histogram(data, avg_verif::fuzzdec::known_sigs()) {
         eprintln!("PROPERTY {} check {} [{}]: {}", f.property, f.check, f.fail.sig, f.fail.msg);
         std::process::abort();
     }
